@@ -21,6 +21,20 @@ def ctor_field_roles(ctx, fn, adt, param_roles, extra=None, engine="api"):
     terms = [se.ret] if se.ret is not None else []
     if se.ret is not None and se.ret[0] == "phi":
         terms += list(se.phi_inputs.get((se.ret[2], se.ret[3]), {}).values())
+    # `fallible().map(|v| Adt { .. v .. })`: the aggregate is built in the mapped closure, on the
+    # Ok / Some payload of the receiver
+    for t in list(terms):
+        ts = util.strip(t)
+        if util.is_call(ts) and ts[1] in ("std::result::Result::<T, E>::map", "std::option::Option::<T>::map", "core::bool::<impl bool>::then", "std::option::Option::<T>::and_then") and len(ts[2]) == 2:
+            mi = se.term_info.get(ts[3][1], {})
+            cl = (mi.get("locargs") or mi.get("args") or (None, None))[1] if len(mi.get("args", ())) == 2 else ts[2][1]
+            if cl is not None and cl[0] == "agg" and cl[1] == "closure":
+                caps = tuple(util.resolve_locals(se, ts[3][1], c) if c[0] in ("ref", "refv") or any(y[0] == "local" for y in _walk(c)) else c for c in cl[4])
+                cl2 = (cl[0], cl[1], cl[2], cl[3], caps)
+                payload = ("field", ("downcast", ("call", "<std::result::Result<T, E> as std::ops::Try>::branch", (ts[2][0],), ts[3]), 0), 0)
+                v = util.closure_value(ctx, cl2, args=(payload,))
+                if v is not None:
+                    terms.append(v)
     for t in terms:
         for x in _walk(t):
             if x[0] == "agg" and x[1] == "adt" and x[2] == adt and x not in aggs:
